@@ -209,7 +209,8 @@ def pfmerge : Body := fun _ args cis =>
   | .key d :: srcs =>
     let ks := srcs.filterMap fun a => match a with | .key i => some i | _ => none
     let ans := calcSetop .union (setOf (ciAt cis d)) (ks.map fun i => setOf (ciAt cis i))
-    ret .ok (cis.set d ((ciAt cis d).setValue (some (.set ans))))
+    -- the destination is modified in place: its deadline is kept
+    ret .ok (cis.set d ((ciAt cis d).update (.set ans)))
   | _ => .error "model: bad args"
 
 end FR.Cmd
